@@ -231,3 +231,22 @@ HEADER_GETTERS = {
     "framebuffer_tag": "Framebuffer", "module_align_tag": "ModuleAlign", "efi_boot_services_tag": "EfiBS", "relocatable_tag": "Relocatable",
 }
 MB2_HEADER_ACCESSORS = {"header_magic": "magic", "arch": "architecture", "length": "header_length", "checksum": "checksum"}
+
+
+# named bit constants of the flag types, by (type name, constant name) -> specified bit value.
+# ELF gABI (sh_flags): SHF_WRITE 0x1, SHF_ALLOC 0x2, SHF_EXECINSTR 0x4.
+ELF_FLAG_CONSTANTS = {
+    ("ElfSectionFlags", "WRITABLE"): 0x1, ("ElfSectionFlags", "ALLOCATED"): 0x2, ("ElfSectionFlags", "EXECUTABLE"): 0x4,
+}
+# VBE 3.0: VbeInfoBlock.Capabilities D0 DAC switchable to 8 bit, D1 controller not VGA compatible, D2 RAMDAC needs the blank bit;
+# ModeInfoBlock.ModeAttributes D0 mode supported, D2 TTY output functions, D3 colour, D4 graphics, D5 not VGA compatible,
+# D6 no VGA-compatible windowed mode, D7 linear frame buffer; WinA/BAttributes D0 relocatable, D1 readable, D2 writeable;
+# DirectColorModeInfo D0 colour ramp programmable, D1 reserved bits usable
+VBE_FLAG_CONSTANTS = {
+    ("VBECapabilities", "SWITCHABLE_DAC"): 0x1, ("VBECapabilities", "NOT_VGA_COMPATIBLE"): 0x2, ("VBECapabilities", "RAMDAC_FIX"): 0x4,
+    ("VBEModeAttributes", "SUPPORTED"): 0x1, ("VBEModeAttributes", "TTY_SUPPORTED"): 0x4, ("VBEModeAttributes", "COLOR"): 0x8,
+    ("VBEModeAttributes", "GRAPHICS"): 0x10, ("VBEModeAttributes", "NOT_VGA_COMPATIBLE"): 0x20, ("VBEModeAttributes", "NO_VGA_WINDOW"): 0x40,
+    ("VBEModeAttributes", "LINEAR_FRAMEBUFFER"): 0x80,
+    ("VBEWindowAttributes", "RELOCATABLE"): 0x1, ("VBEWindowAttributes", "READABLE"): 0x2, ("VBEWindowAttributes", "WRITEABLE"): 0x4,
+    ("VBEDirectColorAttributes", "PROGRAMMABLE"): 0x1, ("VBEDirectColorAttributes", "RESERVED_USABLE"): 0x2,
+}
